@@ -887,15 +887,13 @@ def _fam_cluster():
     _reg("cluster.kmedoids/cluster_center_inds",
          lambda X, ci: kmedoids.kmedoids(X, "manhattan", cluster_center_inds=list(ci), n_iters=2, random_state=3 + 0),
          lambda rs, k: (_points(rs, 14), (0, 5, 9, 13)[:3 + k % 2]))
-    # EXCLUDED (genuine defect, reported): kmedoids(..., cluster_center_inds=<list or ndarray>) overwrites the entries
-    # of the caller's cluster_center_inds with the accepted medoids (_kmedoids_pam_update: medoid_inds[cid] = ...).
-    # The variants around this one pass a private list(...) copy.
-    # _reg("cluster.kmedoids/cluster_center_inds_array",
-    #      lambda X, ci: kmedoids.kmedoids(X, "euclidean", cluster_center_inds=ci, n_iters=2, random_state=8),
-    #      lambda rs, k: (_points(rs, 14), np.array([0, 5, 9])))
-    # _reg("cluster.kmedoids/cluster_center_inds_list",
-    #      lambda X, ci: kmedoids.kmedoids(X, "euclidean", cluster_center_inds=ci, n_iters=2, random_state=8),
-    #      lambda rs, k: (_points(rs, 14), [0, 5, 9]))
+    # the caller's own list / array of center indices (was overwritten with the accepted medoids until /repo 5aa1df4)
+    _reg("cluster.kmedoids/cluster_center_inds_array",
+         lambda X, ci: kmedoids.kmedoids(X, "euclidean", cluster_center_inds=ci, n_iters=2, random_state=8),
+         lambda rs, k: (_points(rs, 14), np.array([0, 5, 9])))
+    _reg("cluster.kmedoids/cluster_center_inds_list",
+         lambda X, ci: kmedoids.kmedoids(X, "euclidean", cluster_center_inds=ci, n_iters=2, random_state=8),
+         lambda rs, k: (_points(rs, 14), [0, 5, 9]))
     _reg("cluster.kmedoids/traj_frame_inds",
          lambda X, ci, L: kmedoids.kmedoids(X, "euclidean", cluster_center_inds=ci, X_lengths=L, n_iters=1, random_state=2),
          lambda rs, k: (_points(rs, 14), ((0, 1), (1, 2), (2, 3)), [5, 5, 4]))
